@@ -90,12 +90,20 @@ fn parse_metrics(text: &str) -> HashMap<String, f64> {
     m
 }
 
-async fn http_get(addr: SocketAddr, path: &str) -> Option<(u16, String)> {
-    let mut s = tokio::time::timeout(Duration::from_secs(2), TcpStream::connect(addr)).await.ok()?.ok()?;
+async fn http_get_once(addr: SocketAddr, path: &str, patience: u64) -> Option<(u16, String)> {
+    let mut s = tokio::time::timeout(Duration::from_secs(2 * patience), TcpStream::connect(addr)).await.ok()?.ok()?;
     s.write_all(format!("GET {} HTTP/1.1\r\nHost: metrics\r\n\r\n", path).as_bytes()).await.ok()?;
-    let (got, _) = read_until_quiet(&mut s, Duration::from_millis(500), 1 << 20).await;
+    let (got, _) = read_until_quiet(&mut s, Duration::from_millis(500 * patience), 1 << 20).await;
     let h = parse_h1_head(&got).ok()??;
     Some((h.status, String::from_utf8_lossy(&got[h.head_len..]).to_string()))
+}
+
+/// None = no parseable answer in three attempts with growing patience (a wall-clock matter: inconclusive, unless it never answers at all)
+async fn http_get(addr: SocketAddr, path: &str) -> Option<(u16, String)> {
+    for patience in [1u64, 3, 8] {
+        if let Some(x) = http_get_once(addr, path, patience).await { return Some(x); }
+    }
+    None
 }
 
 fn compare(rep: &Reporter, step: &str, history: u64, snap: &MetricsSnapshot, stable: bool, model: &Model, trace: &[String]) {
@@ -309,9 +317,14 @@ async fn run_history(rep: &Reporter, dir: &std::path::Path, seed: u64, h: u64, t
                     else if !wrong.is_empty() && metrics_snapshot(&ep.ctx) == snap2 { rep.violation("value exported by GET /metrics differs from the in-process value", json!({"kind":"metrics-export","wrong":wrong,"history":h})); }
                     else { rep.tally("GET /metrics: all documented series present with the in-process values", 1); }
                 }
-                other => rep.violation("GET /metrics on the metrics listener did not answer 200", json!({"kind":"metrics-export","got":other.map(|x| x.0),"history":h})),
+                None => { rep.inconclusive("GET /metrics: no answer within the harness's patience"); rep.tally("GET /metrics: no answer", 1); }
+                Some((code, _)) => rep.violation("GET /metrics on the metrics listener did not answer 200", json!({"kind":"metrics-export","got":code,"history":h})),
             }
-            match http_get(maddr, "/health-check").await { Some((200, _)) => rep.tally("/health-check: 200", 1), other => rep.violation("/health-check did not answer 200", json!({"got":other.map(|x| x.0)})) }
+            match http_get(maddr, "/health-check").await {
+                Some((200, _)) => rep.tally("/health-check: 200", 1),
+                None => { rep.inconclusive("/health-check: no answer within the harness's patience"); rep.tally("/health-check: no answer", 1); }
+                Some((code, _)) => rep.violation("/health-check did not answer 200", json!({"got":code})),
+            }
         }
     }
     // everything closed: gauges return to zero
@@ -361,5 +374,8 @@ pub fn run(args: &Args) -> i32 {
             h += 4;
         }
     });
+    if rep.get_tally("GET /metrics: all documented series present with the in-process values") == 0 && rep.violation_count() == 0 {
+        rep.violation("the metrics listener never answered GET /metrics in the whole run", json!({"kind":"metrics-export","no_answer":rep.get_tally("GET /metrics: no answer")}));
+    }
     rep.finish()
 }
